@@ -3,6 +3,7 @@
 package proxy
 
 import (
+	"regexp"
 	"bytes"
 	"fmt"
 	"io"
@@ -34,6 +35,9 @@ var c07Hdrs = [][][2]string{
 	{{"X-Custom", "v1"}, {"X-Other", "two words; q=1"}},
 	{{"X-Dup", "a"}, {"X-Dup", "b"}, {"Accept", "text/plain"}},
 	{{"x-lower", "z"}, {"Authorization", "Bearer abc.def"}, {"Cookie", "a=b; c=d"}},
+	// the client is itself a proxy (a TLS balancer in front of fabio): what it says about ITS client is end-to-end for fabio,
+	// which supplies these headers only when they are absent
+	{{"X-Forwarded-Proto", "https"}, {"X-Forwarded-Host", "www.example.com"}, {"X-Forwarded-Port", "8443"}},
 }
 
 func c07Body(k int) ([]byte, bool) {
@@ -288,7 +292,7 @@ func TestVerifC07Request(t *testing.T) {
 
 func TestVerifC07Response(t *testing.T) {
 	L := ev.Begin("C07", "c07-response", "exploration",
-		"upstream response matrix status {200,201,204,404,500} x headers {none, custom+duplicate Set-Cookie} x body {empty,1B,70kB with Content-Length, 3 chunks flushed} x request method {GET,POST,HEAD}: status, end-to-end headers and body bytes must reach the client unchanged; no-route: configured status x page, upstream never contacted. non-trivial = response with a body or extra headers")
+		"upstream response matrix status {200,201,204,404,500} x headers {none, custom+duplicate Set-Cookie, own Vary values while compression is configured and the client accepts gzip (content type not matching)} x body {empty,1B,70kB with Content-Length, 3 chunks flushed} x request method {GET,POST,HEAD}: status, end-to-end headers and body bytes must reach the client unchanged; no-route: configured status x page, upstream never contacted. non-trivial = response with a body or extra headers")
 	type rc struct {
 		status int
 		hdr    int
@@ -297,7 +301,7 @@ func TestVerifC07Response(t *testing.T) {
 	}
 	var cases []rc
 	for _, st := range []int{200, 201, 204, 404, 500} {
-		for h := 0; h < 2; h++ {
+		for h := 0; h < 3; h++ {
 			for b := 0; b < 4; b++ {
 				for _, m := range []string{"GET", "POST", "HEAD"} {
 					cases = append(cases, rc{st, h, b, m})
@@ -311,6 +315,15 @@ func TestVerifC07Response(t *testing.T) {
 		var hdr [][2]string
 		if c.hdr == 1 {
 			hdr = [][2]string{{"X-Up", "1"}, {"Set-Cookie", "a=1"}, {"Set-Cookie", "b=2"}, {"Content-Type", "application/x-thing"}, {"Cache-Control", "no-store"}}
+		}
+		var reqHdr [][2]string
+		r.proxy.Config.GZIPContentTypes = nil
+		if c.hdr == 2 {
+			// compression configured and negotiated: the upstream's own Vary values are end-to-end all the same
+			// (fabio may add Accept-Encoding to them)
+			hdr = [][2]string{{"Vary", "Origin"}, {"Vary", "Accept-Language"}, {"Content-Type", "image/png"}, {"X-Up", "1"}}
+			r.proxy.Config.GZIPContentTypes = regexp.MustCompile("^text/")
+			reqHdr = [][2]string{{"Accept-Encoding", "br, gzip"}}
 		}
 		var chunks [][]byte
 		setCL := false
@@ -332,7 +345,7 @@ func TestVerifC07Response(t *testing.T) {
 		}
 		L.Case()
 		d := map[string]interface{}{"method": c.method, "upstream_status": c.status, "upstream_headers": hdr, "body_kind": c.body}
-		rec, s, hits, err := r.do(rawRequest(c.method, "/x", "client.example", nil, body, false), "10.9.8.7:4711", nil)
+		rec, s, hits, err := r.do(rawRequest(c.method, "/x", "client.example", reqHdr, body, false), "10.9.8.7:4711", nil)
 		if err != nil {
 			panic(err)
 		}
@@ -362,6 +375,22 @@ func TestVerifC07Response(t *testing.T) {
 			wh.Add(kv[0], kv[1])
 		}
 		for k, v := range wh {
+			if k == "Vary" {
+				have := map[string]bool{}
+				for _, x := range rec.Header()["Vary"] {
+					for _, y := range strings.Split(x, ",") {
+						have[strings.TrimSpace(y)] = true
+					}
+				}
+				for _, x := range v {
+					if !have[x] {
+						d["header"], d["got_values"], d["want_values"] = k, rec.Header()[k], v
+						L.Violation("end-to-end-response-header-changed", d)
+						break
+					}
+				}
+				continue
+			}
 			if !reflect.DeepEqual(rec.Header()[k], v) {
 				d["header"], d["got_values"], d["want_values"] = k, rec.Header()[k], v
 				L.Violation("end-to-end-response-header-changed", d)
